@@ -99,6 +99,10 @@ def _configs(fs, rng, quick):
         {'t': 'repeat', 'n': 3, 'skip': 0, 'rate': max(int(fs // 12), 1), 'delay': 0,
          'in': {'t': 'gate', 'start': 1.4, 'dur': 6.4, 'in': tone}},
         {'t': 'repeat', 'n': 2, 'skip': 0, 'rate': fs / 10.0, 'delay': 0.0, 'in': tone},
+        # the input factory was in use before it was wrapped (previewed / played out): the wrappers reset it
+        {'t': 'repeat', 'n': 2, 'skip': 1, 'rate': fs / 12.0, 'delay': 1 / fs, 'in': {'t': 'fixed', 'n': 8}, 'preplay': 3},
+        {'t': 'repeat', 'n': 3, 'skip': 0, 'rate': fs / 10.0, 'delay': 0.0, 'in': {'t': 'fixed', 'n': 9}, 'preplay': 9},
+        {'t': 'gate', 'start': 2, 'dur': 9, 'in': {'t': 'fixed', 'n': 13}, 'preplay': 4},
         # long stimuli: only the bookkeeping and a few samples are looked at
         {'t': 'gate', 'start': 1000003.4, 'dur': 2000000.5, 'huge': True, 'in': tone},
         {'t': 'env', 'window': 'hann', 'start': 123456.5, 'dur': 7654321.3, 'rise': 1000.2, 'huge': True, 'in': one},
